@@ -88,6 +88,9 @@ pub fn eval(expr: Node) -> Result<f64, Box<dyn error::Error>> {
             if sub_result >= 0.0 {
                 if (sub_result % 1.0) > 0.0 {
                     Ok(gamma(sub_result + 1.0))
+                } else if sub_result > 170.0 {
+                    // 171! already exceeds f64::MAX: no need to multiply sub_result factors
+                    Ok(f64::INFINITY)
                 } else {
                     let mut factorial_result = 1.0;
                     for i in 2..=(sub_result as usize) {
